@@ -183,7 +183,7 @@ func goKeyword(s string) bool {
 }
 
 var randdataBasics = []string{"bool", "int", "int32", "int64", "uint8", "int8", "int16", "uint16", "float64", "string"}
-var rareBasics = []string{"uint", "uint32", "uint64", "float32"}
+var rareBasics = []string{"uint", "uint32", "uint64", "float32", "byte", "rune"} // byte and rune: other spellings of uint8 and int32
 
 func (g *gen) drawBasic(label string) string {
 	if g.o.RareBasics && rapid.IntRange(0, 7).Draw(g.t, label+"Rare") == 0 {
@@ -954,7 +954,7 @@ func byteLike(e *TypeRef, ti *tinfo) bool {
 	if e.K == TBasic && (e.Name == "uint8" || e.Name == "byte") {
 		return true
 	}
-	return e.K == TRef && ti != nil && (ti.cat == "basic" || ti.cat == "enum") && ti.base == "uint8"
+	return e.K == TRef && ti != nil && (ti.cat == "basic" || ti.cat == "enum") && (ti.base == "uint8" || ti.base == "byte")
 }
 
 func (g *gen) usedAnywhere(name string, except *Pkg) bool {
